@@ -239,7 +239,19 @@ func driveC04(p *Pool, r *evid.Run) {
 		}
 	}
 	r.Add("fault_scenarios", int64(len(disk)))
-	exploreAll(p, r, "C04", disk, 1, 0)
+	if quick {
+		// every position at bound 0; bound 1 where nothing is requested after the fault (equal destination)
+		exploreAll(p, r, "C04", disk, 0, 0)
+		var deep []Scn
+		for _, sc := range disk {
+			if sc.Dst == "small-same" && sc.Policy == "run" {
+				deep = append(deep, sc)
+			}
+		}
+		exploreAll(p, r, "C04", deep, 1, 0)
+	} else {
+		exploreAll(p, r, "C04", disk, 1, 0)
+	}
 
 	// large fan-out: more than 132 requests outstanding while the link is stalled
 	var fan []Scn
@@ -269,21 +281,33 @@ func driveC04(p *Pool, r *evid.Run) {
 	exploreAll(p, r, "C04", fan, 0, 0)
 
 	// 400 files with notifications: callback errors and cancellation while every internal queue is full
-	var big []Scn
-	for _, pol := range []string{"send", "run", "recv", "starve"} {
-		root := Scn{Kind: "xfer", Src: "fan400", Dst: "empty", Cap: 64, Policy: pol, Notify: true}
-		for _, k := range []int{0, 1, 5, 130, 300} {
+	var big, bigRoots []Scn
+	bigPols := []string{"send", "run"}
+	ks := []int{0, 130}
+	if !quick {
+		bigPols = []string{"send", "run", "recv", "starve"}
+		ks = []int{0, 1, 5, 130, 300}
+	}
+	for _, pol := range bigPols {
+		bigRoots = append(bigRoots, Scn{Kind: "xfer", Src: "fan400", Dst: "empty", Cap: 64, Policy: pol, Notify: true})
+	}
+	brr := exploreAll(p, r, "C04", bigRoots, 0, 0)
+	for i, root := range bigRoots {
+		for _, k := range ks {
 			for _, kind := range []string{"hasher", "notify"} {
 				sc := root
 				sc.Fault = Fault{Kind: kind, K: k}
 				big = append(big, sc)
 			}
 		}
-		rr := exploreAll(p, r, "C04", []Scn{root}, 0, 0)
-		if rr[0].Info != nil {
-			steps := rr[0].Info["steps"]
+		if brr[i].Info != nil {
+			steps := brr[i].Info["steps"]
+			n := 6
+			if !quick {
+				n = 12
+			}
 			for _, kind := range []string{"cancelR", "cancelS", "break"} {
-				for k := 0; k < steps; k += steps/12 + 1 {
+				for k := 0; k < steps; k += steps/n + 1 {
 					sc := root
 					sc.Fault = Fault{Kind: kind, K: k}
 					big = append(big, sc)
